@@ -10,11 +10,14 @@ CLAIMED = {
     "C17": ("SMT (z3 nonlinear real arithmetic, Exp uninterpreted with instantiated functional equation) over "
             "symbolic execution of set_rate, the order-4 population propagator and get_PropagationMatrix",
             "4/C17", ""),
+    "C19": ("SMT (z3 linear real arithmetic validity per view) over symbolic execution of the real TwoDResponse "
+            "storage code along every bounded operation history, with a ghost ledger as oracle", "4/C19",
+            "One open known finding (C19-types-into-pathways) is reported as KNOWN-FINDING."),
     "C20": ("CrossHair (symbolic execution of the real Python helpers over z3 integers), one condition per helper, "
             "reachability twins, counterexamples replayed", "4/C20",
             "CrossHair 0.0.110 'Confirmed over all paths' within the pre: bounds."),
 }
 _NYB = "check not built yet in this round (design in DESIGN.md section 4); not claimed until its harness is sound"
 NOT_APPLICABLE = {p: _NYB for p in
-                  ["C%02d" % i for i in range(2, 20) if i not in (13, 14, 17)]}
+                  ["C%02d" % i for i in range(2, 20) if i not in (13, 14, 17, 19)]}
 SOURCE_COMMITS = []
